@@ -266,7 +266,8 @@ class Gen:
         r = self.r
         k = r.random()
         if depth <= 0 or k < 0.35:
-            el = AnyElement(qname=self.any_qname(), text=r.choice(["", "t", "a b", "<&>"]))
+            el = AnyElement(qname=self.any_qname(), text=r.choice(["", "t", "a b", "<&>"]),
+                            attributes=self.any_attrs() if r.random() < 0.4 else {})
         else:
             el = AnyElement(
                 qname=self.any_qname(),
@@ -289,6 +290,9 @@ class Gen:
         out = {}
         for _ in range(r.randint(0, 2)):
             out[self.any_qname()] = r.choice(["v", "", "a b", "{urn:a}notqname", "<&\">"])
+        if r.random() < 0.3:
+            # a QName-valued attribute the writer spells with a prefix it has to declare on THIS element
+            out[f"{{{XSI}}}type"] = r.choice(["{urn:types}Custom", "{urn:types2}Other"])
         return out
 
     def value(self, tp, meta, depth):
